@@ -358,6 +358,38 @@ static std::string run(const Case& k, vf::Ctx& ctx) {
             return os.str();
         }
     }
+    // ---------------- a second evaluation after a non-rigid deformation, with nothing refreshed in between (what the solver does at every
+    // time step): the public entry point must bring every cached quantity it uses up to date itself. Reference = the four terms applied one
+    // by one after the harness's own refresh of the same geometry (each of them was held to its oracle above).
+    {
+        const V3 cen = vg::vertex_mean(m);
+        for (auto& n : cell_tester::nodes(C)) {
+            if (!cell_tester::node_used(n)) continue;
+            V3 r = ct::to_v3(n.pos()) - cen;
+            V3 q(cen.x + r.x * 1.15L + r.y * 0.05L, cen.y + r.y * 0.9L, cen.z + r.z * 1.06L - r.x * 0.03L);
+            cell_tester::pos(n).reset((double)q.x, (double)q.y, (double)q.z);
+        }
+        C.apply_internal_forces(0.);
+        std::vector<V3> F2 = take_forces(C);
+        refresh(C);
+        cell_tester::apply_pressure(C);
+        cell_tester::apply_tension(C);
+        cell_tester::apply_bending(C);
+        C.regularize_all_face_angles();
+        std::vector<V3> S2 = take_forces(C);
+        ld scale2 = total_scale;
+        for (size_t i = 0; i < nn; i++) scale2 += F2[i].norm() + S2[i].norm();
+        for (size_t i = 0; i < nn; i++) {
+            if ((F2[i] - S2[i]).norm() > 1e-9L * scale2 + 1e-300) {
+                std::ostringstream os;
+                os << "second apply_internal_forces after a non-rigid deformation: force on node " << i << " is (" << (double)F2[i].x << "," << (double)F2[i].y << ","
+                   << (double)F2[i].z << ") but the four terms evaluated on freshly recomputed areas, volume and pressure give (" << (double)S2[i].x << ","
+                   << (double)S2[i].y << "," << (double)S2[i].z << ")";
+                return os.str();
+            }
+        }
+        ctx.count("second_evaluation_after_deformation");
+    }
     // ---------------- covariance under rigid motion
     if (!k.rough) {
         vg::Motion mo;
